@@ -50,6 +50,16 @@ theorem C12_eval_find (cc : CC) (hs : cc.Sane) (e : Expr) (hw : wfExpr cc e = tr
   rw [C12_roundtrip cc hs e hw]
   simp [evalExpr, hps]
 
+/-- **Evaluation of parsed expressions**: for every text the parser accepts, the expression
+re-parsed from the printed form evaluates like the parsed one — provided no fixed name ends
+with a backslash (`_partial` for the same reason as `C12_parsed_partial`, C12-KF1). -/
+theorem C12_parsed_eval_partial (cc : CC) (hs : cc.Sane) (s : Str) (e : Expr) (hp : parse cc s = some e)
+    (hb : ∀ f ∈ fixedNames e, endsWithBackslash f = false)
+    (H : Rrel.Heap) (n : Nat) (o : Rrel.Obj) (ns : List String) (cls : Option String) :
+    ∃ a, evalExpr H n e o ns cls = some a ∧
+      (parse cc (printExpr e)).bind (fun e' => evalExpr H n e' o ns cls) = some a :=
+  C12_eval_find cc hs e (wfExpr_of_lexable (parse_sound hp) hb) H n o ns cls
+
 /-- **Core of an expression.** Every RREL expression has a core; it has as many top-level
 alternatives as the expression (at least one), and its node identities are pairwise
 distinct — the hypothesis `hid` of `C11_complete` / `C11_precedence` / `C11_resolves`. -/
